@@ -104,8 +104,8 @@ def rule_t1_t2(ck, prog, S, model):
                         okl = True
                     else:
                         why = "length computed before the last cursor change or against a foreign pointer"
-                elif lf[0] == "const" and lf[1] == 1 and len(sm.advancers) == 1:
-                    okl = True
+                elif lf[0] == "const" and lf[1] == 1 and (len(sm.advancers), getattr(sm, "steps1", 0)) in ((1, 0), (0, 1)):
+                    okl = True      # exactly one byte was consumed: through the one-character skipper or by one own step
                 elif lf[0] == "expr":
                     # block: len = declared length after the in-range check; len += ws + suffix
                     if f.name == "scpiLex_ArbitraryBlockProgramData" and not sm.wild:
@@ -419,6 +419,11 @@ def rule_t4(ck, prog, S, model, only=None):
                     same, detail = None, str(e)
                     break
                 wants_ = {frozenset(CS.parse_class(e_, q)) for e_ in exprs}
+                # the one-character skipper called with a constant advances over exactly that character
+                for c_ in f.calls("skipChr"):
+                    cv_ = C.const_of(K.arg(c_, 1)) if K.arg(c_, 1) is not None else None
+                    if cv_ is not None and gots_ is not None:
+                        gots_ = set(gots_) | {frozenset({cv_ & 0xff})}
                 if gots_ != wants_ and f.name == "scpiLex_NondecimalNumericData":
                     # a data-driven dispatch (table of letters and digit recognisers): the letter sets per token class
                     # by evaluation over all bytes
